@@ -783,7 +783,7 @@ package storage
 //@   modifies storeState
 
 //@ func (f *fileStore) flushPages() error
-//@   props C04 C13
+//@   props C04 C13 C16
 //@   reveal lruInv
 //@   requires txn == 0 && cacheOK(f)
 //@   modifies txn, all(btreeNode.dirty), @cacheState, storeState
